@@ -191,11 +191,16 @@ def check(run: Run) -> None:
         skips = [cn(s.cond).replace(" ", "") for s in wl[0].body.walk() if isinstance(s, C.If) and any(isinstance(x, C.Continue) for x in s.then.walk())]
         run.count(1, "C10.h.skips")
         skips = [x for x in skips if x != "schedule.pulled"]
-        if sorted(skips) != sorted(["entry==nullptr", "entry->schedule_context.pulled_when!=schedule.when"]) and \
-                sorted(skips) != sorted(["storage.entry_at(schedule.slot)==nullptr", "storage.entry_at(schedule.slot)->schedule_context.pulled_when!=schedule.when"]):
+        def norm_cmp(x):
+            m = re.fullmatch(r"(.+?)(==|!=)(.+)", x)
+            return (m.group(2),) + tuple(sorted((m.group(1), m.group(3)))) if m else (x,)
+        want1 = sorted(norm_cmp(x) for x in ["entry==nullptr", "entry->schedule_context.pulled_when!=schedule.when"])
+        want2 = sorted(norm_cmp(x) for x in ["storage.entry_at(schedule.slot)==nullptr", "storage.entry_at(schedule.slot)->schedule_context.pulled_when!=schedule.when"])
+        if sorted(norm_cmp(x) for x in skips) not in (want1, want2):
             run.finding("C10.h", "prepare:drain-skips", f"a due schedule may only be dropped when its entry is gone or a pulled entry is stale: {skips}", loc=MAP)
         # the pulled marker is compared with the popped schedule BEFORE it is consumed (reset to MAX_DT)
-        stale = lambda n: n.kind == "cond" and "pulled_when!=schedule.when" in n.label.replace(" ", "")
+        stale = lambda n: n.kind == "cond" and ("pulled_when!=schedule.when" in n.label.replace(" ", "") or
+                                                re.search(r"schedule\.when!=\S*pulled_when", n.label.replace(" ", "")) is not None)
         consume = R.store_is(r".*schedule_context\.pulled_when", r"MAX_DT")
         R.require_nodes(run, fl, stale, "stale-marker test")
         R.require_nodes(run, fl, consume, "marker reset")
